@@ -283,10 +283,21 @@ def check_always_finalised(repo, rep, uni):
            'Statement.__call__ must dispatch through Function.__call__ '
            '(the #finalize function)', loc=ex.loc(call.node))
     yi = repo.module('yaql.yaql_interface')
-    for q in ('YaqlInterface.__call__', 'YaqlInterface.__getattr__.stub'):
-        f = yi.functions.get(q)
-        if f is None:
-            raise AnalysisError('anchor vanished: ' + q)
+    # every function of the host interface that evaluates a statement or
+    # dispatches a yaql function hands its result through the output
+    # converter (whether it is a method, a closure or a small callable
+    # class)
+    hosts = []
+    for f in yi.functions.values():
+        disp = [c for c in model.calls_in(f.node, shallow=True)
+                if isinstance(c.func, ast.Call) or (isinstance(
+                    c.func, ast.Attribute) and c.func.attr == 'evaluate')]
+        if disp:
+            hosts.append(f)
+    if len(hosts) < 2:
+        raise AnalysisError('anchor vanished: the evaluating entry points '
+                            'of yaql_interface (%d found)' % len(hosts))
+    for f in hosts:
         rets = [r for r in model.walk_shallow(f.node)
                 if isinstance(r, ast.Return)]
         ok = bool(rets) and all(
